@@ -1,0 +1,83 @@
+//go:build verif
+
+// Contracts for the deductive verifier in /verif (gv). This file contains
+// comments only and is compiled only with the build tag `verif`; it adds no
+// code. Syntax: see /verif/DESIGN.md section 3.
+
+package gedcom
+
+// ---------------------------------------------------------------------------
+// Dates as day numbers (C05, C06)
+//
+// A date "shape" is valid when it is a full calendar date, a month and a
+// year, or a year alone, with the year in 1..9999.
+//
+//@ spec func shapeOK(d int, m int, y int) bool = 1 <= y && y <= 9999 && ((d == 0 && m == 0) || (d == 0 && 1 <= m && m <= 12) || validDMY(d, m, y))
+//@ spec func firstDay(d int, m int, y int) int = ite(d != 0, dayno(y, m, d), ite(m != 0, dayno(y, m, 1), dayno(y, 1, 1)))
+//@ spec func lastDay(d int, m int, y int) int = ite(d != 0, dayno(y, m, d), ite(m != 0, dayno(y, m, dim(m, y)), dayno(y, 12, 31)))
+//
+//@ func Date.safeParse
+//@   inline
+//
+//@ func Date.Time
+//@   props C05 C06
+//@   requires shapeOK(date.Day, date.Month, date.Year)
+//@   ensures start: implies(!date.IsEndOfRange, result == firstDay(date.Day, date.Month, date.Year)*NSDAY)
+//@   ensures end: implies(date.IsEndOfRange, result == (lastDay(date.Day, date.Month, date.Year) + 1)*NSDAY - 1)
+//@   assigns nothing
+
+// ---------------------------------------------------------------------------
+// C06 — date-range comparison
+//
+// A valid range is a pair of day numbers a <= b (receiver) and c <= d
+// (argument). R is the documentation's picture in date_range_comparison.go,
+// transcribed row by row; the receiver is the picture's "Right", the argument
+// its "Left". For degenerate (single-day) operands several rows can hold at
+// once; the result must be one of them.
+//
+//@ spec func letter(v int, s int, e int) string = ite(v == s, "e", ite(v == e, "E", ite(v < s, "b", ite(v > e, "A", "a"))))
+//@ spec func cmpCode(a int, b int, c int, d int) int = dateRangeCompareMatrix[letter(a, c, d) + letter(b, c, d)]
+//@ spec func inR(r int, a int, b int, c int, d int) bool = (r == DateRangeComparisonEqual && a == c && b == d) || (r == DateRangeComparisonInside && c < a && b < d) || (r == DateRangeComparisonInsideStart && a == c && b < d) || (r == DateRangeComparisonInsideEnd && c < a && b == d) || (r == DateRangeComparisonOutside && a < c && d < b) || (r == DateRangeComparisonOutsideStart && a == c && d < b) || (r == DateRangeComparisonOutsideEnd && a < c && b == d) || (r == DateRangeComparisonPartiallyBefore && a < c && c < b && b < d) || (r == DateRangeComparisonPartiallyAfter && c < a && a < d && d < b) || (r == DateRangeComparisonBefore && a < c && b == c) || (r == DateRangeComparisonAfter && a == d && d < b) || (r == DateRangeComparisonEntirelyBefore && b < c) || (r == DateRangeComparisonEntirelyAfter && d < a)
+//@ spec func conv(r int) int = ite(r == DateRangeComparisonInside, DateRangeComparisonOutside, ite(r == DateRangeComparisonOutside, DateRangeComparisonInside, ite(r == DateRangeComparisonInsideStart, DateRangeComparisonOutsideStart, ite(r == DateRangeComparisonOutsideStart, DateRangeComparisonInsideStart, ite(r == DateRangeComparisonInsideEnd, DateRangeComparisonOutsideEnd, ite(r == DateRangeComparisonOutsideEnd, DateRangeComparisonInsideEnd, ite(r == DateRangeComparisonPartiallyBefore, DateRangeComparisonPartiallyAfter, ite(r == DateRangeComparisonPartiallyAfter, DateRangeComparisonPartiallyBefore, ite(r == DateRangeComparisonBefore, DateRangeComparisonAfter, ite(r == DateRangeComparisonAfter, DateRangeComparisonBefore, ite(r == DateRangeComparisonEntirelyBefore, DateRangeComparisonEntirelyAfter, ite(r == DateRangeComparisonEntirelyAfter, DateRangeComparisonEntirelyBefore, r))))))))))))
+//@ spec func dayOf(d int, m int, y int, eor bool) int = ite(eor, lastDay(d, m, y), firstDay(d, m, y))
+//
+//@ func compareDatesForLetter
+//@   props C06
+//@   requires shapeOK(value.Day, value.Month, value.Year) && shapeOK(start.Day, start.Month, start.Year) && shapeOK(end.Day, end.Month, end.Year)
+//@   requires !(value.IsEndOfRange && value.Year == 1 && value.Month <= 1 && value.Day <= 1) && !(end.IsEndOfRange && end.Year == 1 && end.Month <= 1 && end.Day <= 1) && !(start.IsEndOfRange && start.Year == 1 && start.Month <= 1 && start.Day <= 1)
+//@   ensures letter: result == letter(dayOf(value.Day, value.Month, value.Year, value.IsEndOfRange), dayOf(start.Day, start.Month, start.Year, start.IsEndOfRange), dayOf(end.Day, end.Month, end.Year, end.IsEndOfRange))
+//@   assigns nothing
+//
+//@ func DateRange.Compare
+//@   props C06
+//@   let a = firstDay(dr.start.Day, dr.start.Month, dr.start.Year)
+//@   let b = lastDay(dr.end.Day, dr.end.Month, dr.end.Year)
+//@   let c = firstDay(dr2.start.Day, dr2.start.Month, dr2.start.Year)
+//@   let d = lastDay(dr2.end.Day, dr2.end.Month, dr2.end.Year)
+//@   requires shapeOK(dr.start.Day, dr.start.Month, dr.start.Year) && shapeOK(dr.end.Day, dr.end.Month, dr.end.Year) && shapeOK(dr2.start.Day, dr2.start.Month, dr2.start.Year) && shapeOK(dr2.end.Day, dr2.end.Month, dr2.end.Year)
+//@   requires !dr.start.IsEndOfRange && dr.end.IsEndOfRange && !dr2.start.IsEndOfRange && dr2.end.IsEndOfRange
+//@   requires !(dr.end.Year == 1 && dr.end.Month <= 1 && dr.end.Day <= 1) && !(dr2.end.Year == 1 && dr2.end.Month <= 1 && dr2.end.Day <= 1)
+//@   requires a <= b && c <= d
+//@   ensures code-shape: result == cmpCode(a, b, c, d)
+//@   ensures doc-relation: inR(result, a, b, c, d)
+//@   ensures never-invalid: result != DateRangeComparisonInvalid
+//@   ensures self-equal: implies(a == c && b == d, result == DateRangeComparisonEqual)
+//@   assigns nothing
+//
+//@ lemma converse props C06: forall(a, forall(b, forall(c, forall(d, implies(a <= b && c <= d && a != b && c != d, cmpCode(a, b, c, d) == conv(cmpCode(c, d, a, b)))))))
+//@ lemma converse-single-day props C06: forall(a, forall(b, forall(c, forall(d, implies(a <= b && c <= d, cmpCode(a, b, c, d) == conv(cmpCode(c, d, a, b)))))))
+//
+//@ func DateRangeComparison.IsEqual
+//@   props C06
+//@   ensures result == (c == DateRangeComparisonEqual)
+//@ func DateRangeComparison.IsPartiallyEqual
+//@   props C06
+//@   ensures result == (c == DateRangeComparisonInside || c == DateRangeComparisonInsideStart || c == DateRangeComparisonInsideEnd || c == DateRangeComparisonOutside || c == DateRangeComparisonOutsideStart || c == DateRangeComparisonOutsideEnd || c == DateRangeComparisonPartiallyBefore || c == DateRangeComparisonPartiallyAfter)
+//@ func DateRangeComparison.IsNotEqual
+//@   props C06
+//@   ensures result == (c == DateRangeComparisonBefore || c == DateRangeComparisonAfter || c == DateRangeComparisonEntirelyBefore || c == DateRangeComparisonEntirelyAfter)
+//@ spec func isEq(c int) bool = c == DateRangeComparisonEqual
+//@ spec func isPart(c int) bool = c == DateRangeComparisonInside || c == DateRangeComparisonInsideStart || c == DateRangeComparisonInsideEnd || c == DateRangeComparisonOutside || c == DateRangeComparisonOutsideStart || c == DateRangeComparisonOutsideEnd || c == DateRangeComparisonPartiallyBefore || c == DateRangeComparisonPartiallyAfter
+//@ spec func isNot(c int) bool = c == DateRangeComparisonBefore || c == DateRangeComparisonAfter || c == DateRangeComparisonEntirelyBefore || c == DateRangeComparisonEntirelyAfter
+//@ lemma one-verdict props C06: forall(c, implies(1 <= c && c <= 13, (isEq(c) && !isPart(c) && !isNot(c)) || (!isEq(c) && isPart(c) && !isNot(c)) || (!isEq(c) && !isPart(c) && isNot(c))))
+//@ lemma compare-range props C06: forall(a, forall(b, forall(c, forall(d, implies(a <= b && c <= d, 1 <= cmpCode(a, b, c, d) && cmpCode(a, b, c, d) <= 13)))))
